@@ -342,7 +342,7 @@ class CorrBatch:
                 if nm != name:
                     continue
                 okc, out, err, secs = res[rel]
-                m = re.search(r'=\s*\(\s*(\d+)\s*,\s*\[([^\]]*)\]\s*\)', out.replace('\n', ' '))
+                m = re.search(r'=\s*\(\s*(\d+)(?:%nat)?\s*,\s*\[([^\]]*)\]\s*\)', out.replace('\n', ' '))
                 if not okc or not m:
                     broke = True
                     ctx.broken.append({'kind': 'correspondence', 'name': f'{name}:{rel}', 'detail': (err or out)[-1500:]})
